@@ -41,7 +41,7 @@ ASSUMPTIONS = ["all text is printable ASCII",
                "SequenceCoding is compared only when the record says `bp` and has a length: Build writes the constant ` bp` and has no parameter for another unit",
                "EXCLUDED from 'every generated structured record', each a decidable conjunct of wfLayoutJ / wfSeqJ (Spec/GbStrict.lean) with its reason: "
                "a blank at either END of a metadata value (the keyword line cannot delimit it; genbank.Parse trims, so the parser's image has none); "
-               "tabs, newlines, non-ASCII; a locus name with a blank; a non-numeric length; a molecule type outside poly's own list; an extra keyword "
+               "tabs, newlines, non-ASCII; a locus name with a blank; a non-numeric length; a date without a real month; 10^8 or more bases (round trip: the reader's ORIGIN counter limit); a molecule type outside poly's own list; an extra keyword "
                "that does not fit columns 1-11 or is one of the writer's own; a feature key longer than columns 6-20; Circular && Linear; a qualifier "
                "value beginning or ending with a quotation mark, a qualifier key with '/' or '='; a cached location text that does not denote the "
                "structure; Start/End on a node with operands, Join without operands, a one-operand node that is neither a join nor a double "
@@ -57,13 +57,13 @@ PARTIAL = ["build_strict_layout_partial: proved on the judge's layout domain wfL
            "parse_build (parse (build x o) ≈ ok x over the parser model of C01, on the judge's round-trip domain wfSeqJ): proved as "
            "parse_build_partial (Props/C03Parse.lean) under `covered x` = wfSeqJ minus the two known findings (wfLayoutG: runs of blanks allowed "
            "when none falls on a wrap point — general bridge lemma wrapText_breaks_general over the refined wrap relation WrappedS) && positional "
-           "Index && REFERENCE lines wrapped without loss && GbLayout.wf (toRec x). What `covered` still adds, with the reason: (1) a date, when "
-           "present, has a real month [C01 isDateText]; (2) no quotation mark in a qualifier key [C01 isQualKeyChar: such a key breaks C01's value-less "
-           "/ unquoted layouts under the 9a46c6b rule]; (3) the location text is ONE INSDC-shaped expression [C01 isLocText]; (4) fewer than 10^8 bases "
-           "[C01 wf]; (5) the REFERENCE line is not broken AT its own two blanks (`REFERENCE   1` / range on the next line: the real parser reads it, "
+           "Index && REFERENCE lines wrapped without loss && GbLayout.wf (toRec x). What `covered` still adds, with the reason: (1) [gone: a date now "
+           "needs a real month in the judge's domain too — `01-PRI-2020` is not a date, and the real parser would read PRI as the division]; (2) no quotation mark in a qualifier key [C01 isQualKeyChar: such a key breaks C01's value-less "
+           "/ unquoted layouts under the 9a46c6b rule]; (3) the location text is ONE INSDC-shaped expression [C01 isLocText]; (4) [gone: the judge's round-trip domain has the same bound — from base 10^8 on the ORIGIN counter fills "
+           "its nine columns and genbank.Parse takes the sequence line for a keyword line]; (5) the REFERENCE line is not broken AT its own two blanks (`REFERENCE   1` / range on the next line: the real parser reads it, "
            "C01's layouts never break next to a blank) — any other wrapping of the line is covered; (6) Reference.Index is the position [C01's "
            "toRefs / refHead number by position; requested from C01: a number field in RRef]; (7) the two known findings (blank run at a wrap point, "
-           "no locus name). Items 1, 4, 6 need a change of C01's record type / lemmas (requested in notes/requests/C01-from-C03.md)",
+           "no locus name). Item 6 needs a number field in C01's RRef (feasible per w-gbparse, not scheduled)",
            "parse_build_partial compares the location TEXT of each feature (Genbank.parse leaves parseLocation to C02). That the STRUCTURE "
            "parseLocation derives from that text equals the record's SequenceLocation (modulo normLoc) rests on (a) wfSeq's conjunct cacheConsistent for "
            "cached texts and (b) property C02's theorem parsed_structure (Props/C02.lean: parseLocation (print l) = ok (pembed l)) together with "
@@ -476,7 +476,7 @@ LEVEL_TEXT = ("Determinism (all map iteration orders), the wrap/unwrap inversion
               "through a file); the parser model itself is compared with the real parser on every written text.")
 LEVEL_NOTE = ("Share of the thorough tier's judged cases inside the theorems' domains (class tags /lay and /pb in the evidence's class histogram; "
               "last thorough run, 15687 judged): build_strict_layout_partial 91.4 % (all but the two known findings), parse_build_partial 89.3 % "
-              "(the rest: the two known findings, own reference numbers, dates without a real month, quotation marks in qualifier keys, "
+              "(the rest: the two known findings, own reference numbers, quotation marks in qualifier keys, "
               "location texts that are not one expression). Trusted: Lean kernel; harness + pm_C03 judge; the hand transcription of go-wordwrap and of Build (tied by correspondence on every "
               "case, byte for byte); the strict reader as the meaning of 'independent reader'; ASCII.")
 
